@@ -579,6 +579,14 @@ def _check_search_independence(repo, r3, s):
     for st in ast.walk(pc.node):
         if isinstance(st, ast.Assign) and isinstance(st.value, ast.Name) and st.value.id == pc.params[1]:
             r3.fail_fn(pc, st, "config keeps the dict", "%s._parse_config stores the caller's dict" % s.name)
+    # ... and is filled only while it is built: nothing re-derives slots later (a client that did so would disagree with a server,
+    # or with its own next session, built from the same JSON)
+    from .c07 import config_mutators
+    for (m, st, f, c) in config_mutators(repo, s):
+        r3.fail_fn(f, c, "configuration changed after construction by %s" % m.name,
+                   "%s calls %s, which stores into the configuration object (%s): the configuration is then no longer a function of its dict, "
+                   "and whoever rebuilds the scheme from the stored JSON (the server, a later session) works with other parameters" % (f.qual, m.qual, short(st)))
+    r3.ok()
     # the scheme constructor builds its config from the dict it is given
     init = s.cls.methods.get("__init__")
     built = [c for c in ast.walk(init.node) if isinstance(c, ast.Call) and (dotted(c.func) or "").endswith("Config") and c.args
